@@ -173,6 +173,9 @@ class SimTransport(object):
                 out.append((stage, bytes(b)))
             elif k == "extend":
                 out.append((stage, frame + bytes(f["arg"])))
+            elif k == "payload":
+                # a well-framed response (valid length and checksums) that carries fewer payload bytes
+                out.append((stage, self.chip.truncate_payload(frame, f["arg"])))
             elif k == "dup_ack":
                 out.append((stage, frame))
                 out.append((stage, frame))
